@@ -33,11 +33,15 @@ class BNReplayer:
         eps = qf(consts.get("Eps", [1, 100000]))
         shapes = {len(b["shape"]) for b in consts["Batches"]}
         cls = nn.BatchNorm2d if 4 in shapes else nn.BatchNorm1d
-        bn = cls(consts["NC"], eps=eps, momentum=mom, affine=consts["Affine"], track_running_stats=consts["Track"], dtype=self.dtype)
-        if consts["Affine"]:
-            bn.weight.data = np.array([qf(q) for q in consts["Gamma"]], dtype=self.dtype)
-            bn.bias.data = np.array([qf(q) for q in consts["Beta"]], dtype=self.dtype)
         tag = "bn:mom=%s,affine=%s,track=%s" % ("none" if mom is None else "ema", consts["Affine"], consts["Track"])
+        try:
+            bn = cls(consts["NC"], eps=eps, momentum=mom, affine=consts["Affine"], track_running_stats=consts["Track"], dtype=self.dtype)
+            if consts["Affine"]:
+                bn.weight.data = np.array([qf(q) for q in consts["Gamma"]], dtype=self.dtype)
+                bn.bias.data = np.array([qf(q) for q in consts["Beta"]], dtype=self.dtype)
+        except Exception as e:  # noqa: BLE001 - a layer that cannot be built / has no scale and shift although affine=True
+            return [("error", tag + ":construct:" + type(e).__name__, "%s(affine=%s, track_running_stats=%s): constructing the layer / setting its weight and bias raised %s: %s" % (
+                cls.__name__, consts["Affine"], consts["Track"], type(e).__name__, str(e)[:100]))]
         root = nn.Sequential(nn.Sequential(bn)) if consts.get("Nested") else None
         pend = []           # (input tensor, output tensor) of every forward, for later backward passes
         for i, call in enumerate(hist):
